@@ -152,17 +152,25 @@ def build(P):
         a, b = interp.ev(e.args[0], fr), interp.ev(e.args[1], fr)
         return VBool(COPY(a.z, b.z))
 
+    INTERP = _z3.Function("interpolated_from", I, I, I, R, R, R, _z3.BoolSort())
+
+    def spec_interp(interp, e, fr):
+        from pyvc.ops import to_real_z
+        vals = [interp.ev(a, fr) for a in e.args]
+        return VBool(INTERP(vals[0].z, vals[1].z, vals[2].z, *[to_real_z(v) for v in vals[3:6]]))
+
     def install_geo(it):
         from pyvc.externals import _wrap
         it.externals["quaternion.slerp"] = _wrap(it, "quaternion.slerp", _slerp, "Quaternion.slerp(q0, q1, a) is a function of its arguments with slerp(.., 0) = q0 and slerp(.., 1) = q1 (the shortest arc is pyquaternion's)")
         it.externals["copy.deepcopy"] = _wrap(it, "copy.deepcopy", _deepcopy, "deepcopy(x) is a new object of the same class whose fields hold equal values")
-        it.spec_funcs.update(slerp_of=spec_slerp, same_quat=spec_same_quat, is_copy_of=spec_copy)
+        it.spec_funcs.update(slerp_of=spec_slerp, same_quat=spec_same_quat, is_copy_of=spec_copy, interpolated_from=spec_interp)
     P.install(install_geo)
+    P.install(lambda it: setattr(it.ctx, "append_carry", True))      # appends to lists that carry existential invariants (id_list)
     T3 = TTuple(TReal(), TReal(), TReal())
     st = P.model(ClassModel("ObjectState", {"position": T3, "orientation": TOpaque("quaternion"), "shape": TOpaque("shape"), "velocity": T3,
                                             "pose_covariance": TOpt(TReal()), "twist_covariance": TOpt(TReal())}, repo_class=idx.lookup("common.object:ObjectState")))
     st.alloc_smt = True
-    P.model(ClassModel("DynamicObject", {"unix_time": TInt(), "uuid": TOpt(TStr()), "state": TSObj("ObjectState"), "frame_id": TEnum(idx.lookup("common.schema:FrameID"))},
+    P.model(ClassModel("DynamicObject", {"unix_time": TInt(), "uuid": TStr(), "state": TSObj("ObjectState"), "frame_id": TEnum(idx.lookup("common.schema:FrameID"))},
                        repo_class=idx.lookup("common.object:DynamicObject")))
     ST, DO = TSObj("ObjectState"), TSObj("DynamicObject")
     tp = {"t1": TReal(), "t2": TReal(), "t": TReal()}
@@ -193,8 +201,82 @@ def build(P):
                                requires=E("distinct_times", "t1 < t2"),
                                raises={"AssertionError": "not (t1 <= t and t <= t2) or object_1.uuid != object_2.uuid"}, ensures=obj_ens),
              extra_contracts={idx.lookup(f"{GEO}:interpolate_state").fq: state_cut})
-    P.uncover("interpolate_object_list / interpolate_state / interpolate_quaternion / interpolate_ground_truth_frames bodies: "
-              "interpolate_ground_truth_frames is cut at an assumed contract (stamped with the query time, built from the two given frames); "
-              "the per-object pose clauses (shortest rotation arc, objects in one neighbour kept) are not decided in this build")
+    # ------------------------------------------------------------------ the object list: matched by uuid -> interpolated; present in one neighbour only -> kept
+    # inside the list function the per-object result is known by name only: interpolated_from(result, object_1, object_2, t1, t2, t) — "this object was returned by
+    # interpolate_object for these arguments"; what such an object looks like (pose on the segment / arc, same id, query time) is interpolate_object's verified contract
+    obj_cut = Contract(f"{GEO}:interpolate_object", params={}, returns=DO, requires=E("distinct_times", "t1 < t2"),
+                       raises={"AssertionError": "not (t1 <= t and t <= t2) or object_1.uuid != object_2.uuid"},
+                       ensures=E("named_result", "interpolated_from(result, object_1, object_2, t1, t2, t)", "a_new_object", "is_new(result) and allocated(result)"))
+    P.verify(f"{GEO}:interpolate_object", name="interpolate_object[3-D objects]",
+             contract=Contract(f"{GEO}:interpolate_object", cut=False, params=dict(tp, object_1=DO, object_2=DO), requires=E("distinct_times", "t1 < t2"),
+                               raises={"AssertionError": "not (t1 <= t and t <= t2) or object_1.uuid != object_2.uuid"}, ensures=obj_ens),
+             extra_contracts={idx.lookup(f"{GEO}:interpolate_dynamic_object").fq: Contract(f"{GEO}:interpolate_dynamic_object", params={}, returns=DO, requires=E("distinct_times", "t1 < t2"),
+                                                                                         raises={"AssertionError": "not (t1 <= t and t <= t2) or object_1.uuid != object_2.uuid"}, ensures=obj_ens)})
+    L1, L2, OUT, IDS = "object_list1", "object_list2", "output_object_list", "id_list"
+    n1, n2 = f"len({L1})", f"len({L2})"
+    gm, dm = pred_fn("in_both", 1, trigger=True)
+    gn, dn = pred_fn("only_in_second", 1, trigger=True)
+    gc, dc = count_fn("new_before")
+    jm = int_fn("first_match", 1)
+    src = int_fn("source_of", 1)          # inverse of m -> len(list1) + new_before(m) on the objects that are only in the second neighbour
+    in_both_x = lambda k: f"exists(j, 0, {n2}, {L2}[j].uuid == {L1}[{k}].uuid)"
+    only2_x = lambda m: f"(not exists(q, 0, {n1}, {L1}[q].uuid == {L2}[{m}].uuid))"        # q: pred_fn binds k
+    jm_def = (f"forall(k, 0, {n1}, implies(in_both(k), 0 <= first_match(k) and first_match(k) < {n2} and {L2}[first_match(k)].uuid == {L1}[k].uuid and "
+              f"forall(m, 0, first_match(k), {L2}[m].uuid != {L1}[k].uuid)))")
+    pose = lambda o, a, b: (" and ".join(f"{o}.state.position[{k}] == {lin(a + '.state.position', b + '.state.position', k)}" for k in range(3)) +
+                            f" and same_quat({o}.state.orientation, slerp_of({a}.state.orientation, {b}.state.orientation, {ALPHA})) and {o}.uuid == {a}.uuid and {o}.unix_time == int(t)")
+    first_part = lambda out, upto: (f"forall(k, 0, {upto}, implies(in_both(k), interpolated_from({out}[k], {L1}[k], {L2}[first_match(k)], t1, t2, t))) and "
+                                    f"forall(k, 0, {upto}, implies(not in_both(k), is_copy_of({out}[k], {L1}[k])))")
+    fresh_lists = f"not is_old({OUT}) and not is_old({IDS}) and allocated({OUT}) and allocated({IDS}) and {OUT} is not {IDS}"
+    exist = lambda upto: f"forall(k, 0, {upto}, allocated({OUT}[k]) and not is_old({OUT}[k]))"
+    untouched = f"{n1} == old({n1}) and {n2} == old({n2}) and forall(k, 0, {n1}, {L1}[k] is old({L1}[k]) and {L1}[k].uuid == old({L1}[k].uuid)) and forall(k, 0, {n2}, {L2}[k] is old({L2}[k]) and {L2}[k].uuid == old({L2}[k].uuid))"
+    second_part = lambda out, upto: f"forall(m, 0, {upto}, implies(only_in_second(m), is_copy_of({out}[{n1} + new_before(m)], {L2}[m])))"
+    # staged invariant proof: stage A (lengths and the id list — what `not in id_list` decides) is inductive on its own; stage B (which object sits where)
+    # assumes stage A's invariants at the loop heads and proves the contents
+    A1 = E("lists", f"{fresh_lists} and len({OUT}) == i and len({IDS}) == i", "ids_so_far", f"forall(k, 0, i, {IDS}[k] == {L1}[k].uuid)", "inputs_untouched", untouched)
+    A3 = E("lists", f"{fresh_lists} and 0 <= i and i < {n1} and object1 is {L1}[i] and len({OUT}) == i and len({IDS}) == i and found == False",
+           "ids_so_far", f"forall(k, 0, i, {IDS}[k] == {L1}[k].uuid)",
+           "no_match_among_the_second_neighbours_objects_seen", f"forall(m, 0, j, {L2}[m].uuid != {L1}[i].uuid)", "inputs_untouched", untouched)
+    A2 = E("lists", f"{fresh_lists} and len({OUT}) == {n1} + new_before(j) and len({IDS}) == len({OUT})",
+           "ids_of_the_first_neighbour", f"forall(k, 0, {n1}, {IDS}[k] == {L1}[k].uuid)",
+           "further_ids_come_from_the_second_neighbour",
+           f"forall(p, {n1}, len({IDS}), 0 <= source_of(p) and source_of(p) < j and {IDS}[p] == {L2}[source_of(p)].uuid, {IDS}[p])",
+           "inputs_untouched", untouched)
+    B1 = E("first_neighbours_objects_so_far", first_part(OUT, "i"), "outputs_exist", exist("i"))
+    B3 = E("first_neighbours_objects_so_far", first_part(OUT, "i"), "outputs_exist", exist("i"))
+    B2 = E("first_neighbours_objects", first_part(OUT, n1), "second_neighbours_new_objects_so_far", second_part(OUT, "j"), "outputs_exist", exist(f"len({OUT})"))
+    common = dict(params=dict(tp, **{L1: TSList(DO), L2: TSList(DO)}), returns=TSList(DO),
+                  locals={OUT: TSList(DO), IDS: TSList(TStr()), "found": TBool()},
+                  ghosts={"in_both": gm, "only_in_second": gn, "new_before": gc, "first_match": jm, "source_of": src},
+                  defs=dm(in_both_x, n1) + dn(only2_x, n2) + dc(lambda m: f"only_in_second({m})", n2) +
+                  [("first_match.def", jm_def), ("source_of.def", f"forall(m, 0, {n2}, implies(only_in_second(m), source_of({n1} + new_before(m)) == m), new_before(m))")],
+                  requires=E("distinct_times", "t1 < t2",
+                             "ids_unique_within_each_neighbour", f"forall(a, 0, {n1}, forall(b, 0, {n1}, implies(a != b, {L1}[a].uuid != {L1}[b].uuid))) and "
+                                                                 f"forall(a, 0, {n2}, forall(b, 0, {n2}, implies(a != b, {L2}[a].uuid != {L2}[b].uuid)))"),
+                  raises={"AssertionError": "not (t1 <= t and t <= t2)"})
+    # loop ordinals follow a breadth-first walk of the body: the two top-level loops are 1 and 2, the nested search loop is 3
+    P.verify(f"{GEO}:interpolate_object_list", name="interpolate_object_list[stage A: lengths and ids]",
+             contract=Contract(f"{GEO}:interpolate_object_list", cut=False,
+                               loops={1: LoopSpec(index="i", invariants=A1), 2: LoopSpec(index="j", invariants=A2), 3: LoopSpec(index="j", invariants=A3)},
+                               ensures=E("every_object_of_either_neighbour_once", f"len(result) == {n1} + new_before({n2})", "a_new_list", "not is_old(result)"), **common),
+             extra_contracts={idx.lookup(f"{GEO}:interpolate_object").fq: obj_cut})
+    P.verify(f"{GEO}:interpolate_object_list", name="interpolate_object_list[stage B: contents]",
+             contract=Contract(f"{GEO}:interpolate_object_list", cut=False,
+                               # of stage A only what the contents need: the lengths / list identities, the inner loop's search state, the untouched inputs
+                               loops={1: LoopSpec(index="i", invariants=B1, assumed=[c for c in A1 if c[0] in ("lists", "inputs_untouched")]),
+                                      2: LoopSpec(index="j", invariants=B2, assumed=A2),
+                                      3: LoopSpec(index="j", invariants=B3, assumed=[c for c in A3 if c[0] in ("lists", "inputs_untouched", "no_match_among_the_second_neighbours_objects_seen")])},
+                               ensures=E("objects_present_in_both_neighbours_lie_on_the_segment_and_arc_at_the_proportional_time_others_of_the_first_are_kept", first_part("result", n1),
+                                         "objects_present_in_the_second_neighbour_only_are_kept", second_part("result", n2)), **common),
+             extra_contracts={idx.lookup(f"{GEO}:interpolate_object").fq: obj_cut})
+    P.uncover("interpolate_ground_truth_frames itself (ego-pose interpolation of a 4x4 matrix, convert_objects_to_global, deepcopy of the frame) is cut at an assumed contract "
+              "(stamped with the query time, built from the two given frames); its body is exercised by the bounded harness only. 2-D objects (interpolate_dynamic_object2d) are not covered")
     P.assume("contract of interpolate_ground_truth_frames (result stamped with the query time and built from exactly the two frames passed) is assumed, not proved")
+    P.assume("pyquaternion: Quaternion.slerp(q0, q1, a) is a function of its arguments with slerp(., ., 0) = q0 and slerp(., ., 1) = q1; that it follows the SHORTEST arc is "
+             "pyquaternion's contract (not modelled); copy.deepcopy returns a new object with equal field values")
+    P.assume("object ids are unique within each neighbour frame and not None (the property's quantifier domain); inside interpolate_object_list the per-object result is known by "
+             "the named predicate interpolated_from(result, o1, o2, t1, t2, t) — what such a result looks like is interpolate_object's verified contract (modular composition)")
+    P.bounded.append(dict(what="the real interpolate_ground_truth_frames on two real frames: stamped with the query time, every id of either neighbour exactly once, objects in both on the "
+                               "segment / slerp arc at the proportional time (exact at the neighbours' own times), objects in one neighbour kept unchanged",
+                          bound="150 random frame pairs per run (0-5 ids appearing / disappearing, shuffled order, random ego poses)", where="replay/C17.py"))
     P.assume("FrameGroundTruth.unix_time is an int; frames are strictly time-ordered (the property's own quantifier domain)")
